@@ -19,7 +19,7 @@
    theories/C08Proofs.v. The transport is in-order and reliable per connection (TCP); time is the model's clock. *)
 From Coq Require Import List NArith ZArith Bool Lia.
 Import ListNotations.
-Require Import Codec CRCFrame C04Proofs Frame Rijndael RijP1 Cipher SCipher Client ClientReasm PeerU Session C08Proofs C08Bad.
+Require Import Codec CRCFrame C04Proofs Frame Rijndael RijP1 Cipher SCipher Client ClientReasm PeerU Session C08Proofs C08Bad ClientNonEmpty.
 Local Open Scope N_scope.
 
 Section C08.
@@ -94,6 +94,18 @@ Section C08.
   Proof. exact (C08Proofs.C08_disconnect key Bk user pass Bu Bp Hlen crc conn_to send_to recv_to to_pos rbuf rbuf_pos reply_of deny_of reply_okm deny_okm reply_nonempty deny_nonempty auth_grants auth_denies). Qed.
 End C08.
 
+(* a successful call always carries a reply: for EVERY environment (any peer, honest or not, any segmentation and timing),
+   cipher, encoder and configuration, a call of the client model with the RSCP decode step that returns Ok returns at least
+   one message - so Client.Send's "first message of the reply" always exists *)
+Theorem C08_reply_nonempty : forall (E : Type) (m : envsm E) encode enc dec iv0 valid auth_req auth_ok conn_to send_to recv_to rbuf
+    fuel s w req s' w' ms,
+  send_multiple message encode c_decode_step enc dec iv0 valid auth_req auth_ok conn_to send_to recv_to rbuf E m fuel s w req
+    = (s', w', Ok (list message) ms) -> ms <> [].
+Proof.
+  intros E m encode enc dec iv0 valid auth_req auth_ok conn_to send_to recv_to rbuf fuel s w req s' w' ms H.
+  exact (ClientNonEmpty.send_multiple_nonempty _ _ _ _ _ _ _ _ _ _ _ _ _ _ _ c_decode_nonempty _ _ _ _ _ _ _ H).
+Qed.
+
 (* rejected plaintexts the script may contain: 32 zero bytes (no magic), a checksummed frame with one checksum bit flipped,
    a frame whose payload is not a sequence of items *)
 Theorem C08_bad_instances : PeerU.badg message c_verdict maxlen gp /\ PeerU.badg message c_verdict maxlen bad_crc_frame /\
@@ -138,3 +150,4 @@ Qed.
 
 Print Assumptions C08_history. Print Assumptions C08_call_spec. Print Assumptions C08_recovery. Print Assumptions C08_steady.
 Print Assumptions C08_disconnect. Print Assumptions C08_bad_instances. Print Assumptions C08_bad_crc. Print Assumptions C08_bad_payload.
+Print Assumptions C08_reply_nonempty.
